@@ -97,7 +97,7 @@ add("C16", "generated synthetic level tables + ordering patterns substituted in-
     "Caller-owned unchecked keys are explored in a diagnostic stratum only (documented contract).", ready=False)
 add("C17", "stateful model-based testing (ValueSet op sequences) + generated tables/CSV vs set models",
     "Exploration: rule-based machines over value sets vs Python sets; random tables vs a brute-force allowed-combination model; CSV text rendered from a table model and read back.",
-    "No inverted ranges / negative CSV numbers (outside documented format); tables without catch-all columns for the equivalences.", ready=False)
+    "No inverted ranges / negative CSV numbers (outside documented format); tables without catch-all columns for the equivalences.", ready=True)
 add("C18", "exhaustive pattern-AST x sequence box + generated larger patterns vs Python re reference with brute-force viability",
     "Exploration: every pattern AST up to a bounded size over a small alphabet x every short sequence (exhaustive box), larger generated patterns, and the real level/test-case patterns over all data-unit names: match_symbol, is_complete and valid_next_symbols against the reference.",
     "Reference = Python re over one character per symbol; '$' only where nothing mandatory follows.", ready=False)
@@ -118,7 +118,7 @@ add("C23", "generated pictures/metadata: file round trip + comparison tool vs ow
     "Scripts driven through main() in-process.", ready=True)
 add("C27", "stateful model-based testing of every fixeddict type vs a model dict; pickle/deepcopy round trips",
     "Exploration: rule-based machines over all library fixeddict types with declared and undeclared keys (construction, item assignment, setdefault, update, |=, copy, del/pop/clear, pickle protocols 0-5).",
-    "Two-argument setdefault only.", ready=False)
+    "Two-argument setdefault only.", ready=True)
 add("C28", "grammar/mutation-based CSV generation vs documented-domain predicate",
     "Exploration: cell/row/column mutations of the sample CSVs and random CSV through the CLI's file mode: result in documented domain or InvalidCodecFeaturesError, nothing else.",
     "Text handed over through a file opened as the CLI does.", ready=True)
